@@ -232,6 +232,71 @@ fn cases(thorough: bool) -> Vec<Case> {
     out
 }
 
+/// thorough tier only: generated argument strings, every %XY escape, wide round-trip ranges, all substrings of all short
+/// strings over two letters, every ordered pair of the regex_replace string table
+fn cases_deep() -> Vec<Case> {
+    let unary_fns = ["to_upper", "to_lower", "url_decode", "parse_int", "parse_float", "parse_boolean", "parse_string", "json_parse", "parse_char"];
+    let qa = || Arg::Q(false, vec![key("a")]);
+    let mut out = vec![];
+    let alpha = ['a', 'B', '\u{e9}', '%', '2', '0', ' ', '\u{df}', '-', '.'];
+    let mut strs: Vec<String> = vec![];
+    for a in alpha {
+        strs.push(a.to_string());
+        for b in alpha {
+            strs.push(format!("{}{}", a, b));
+            for c in alpha {
+                strs.push(format!("{}{}{}", a, b, c));
+            }
+        }
+    }
+    for fname in unary_fns {
+        for sv in &strs {
+            out.push(Case { fname, args: vec![qa()], lets: vec![], doc: m(vec![("a", s(sv))]), form: "generated-string" });
+        }
+    }
+    let hex = "0123456789abcdefABCDEF";
+    for x in hex.chars() {
+        for y in hex.chars() {
+            out.push(Case { fname: "url_decode", args: vec![qa()], lets: vec![], doc: m(vec![("a", s(&format!("%{}{}", x, y)))]), form: "every-escape" });
+            out.push(Case { fname: "url_decode", args: vec![qa()], lets: vec![], doc: m(vec![("a", s(&format!("a%{}{}b+c", x, y)))]), form: "every-escape" });
+        }
+    }
+    for n in (-20000i64..=20000).filter(|n| n.abs() > 1200) {
+        out.push(Case { fname: "parse_int", args: vec![Arg::Call("parse_string".into(), vec![qa()])], lets: vec![], doc: m(vec![("a", i(n))]), form: "roundtrip-int" });
+        out.push(Case { fname: "parse_string", args: vec![Arg::Call("parse_int".into(), vec![qa()])], lets: vec![], doc: m(vec![("a", s(&n.to_string()))]), form: "roundtrip-string" });
+    }
+    for k in 0..62 {
+        for n in [1i64 << k, (1i64 << k) - 1, -(1i64 << k), (1i64 << k) + 1] {
+            out.push(Case { fname: "parse_int", args: vec![Arg::Call("parse_string".into(), vec![qa()])], lets: vec![], doc: m(vec![("a", i(n))]), form: "roundtrip-int" });
+            out.push(Case { fname: "parse_char", args: vec![qa()], lets: vec![], doc: m(vec![("a", i(n))]), form: "query" });
+        }
+    }
+    let mut ab: Vec<String> = vec![String::new()];
+    for len in 1..=4 {
+        for code in 0..(1u32 << len) {
+            ab.push((0..len).map(|b| if code >> b & 1 == 1 { 'b' } else { 'a' }).collect());
+        }
+    }
+    for sv in &ab {
+        for a in 0..=5i64 {
+            for b2 in 0..=5i64 {
+                out.push(Case { fname: "substring", args: vec![qa(), Arg::Lit(i(a)), Arg::Lit(i(b2))], lets: vec![], doc: m(vec![("a", s(sv))]), form: "substring-indices" });
+            }
+        }
+    }
+    let rstrs = ["", "a", "ab", "abc", "ba", "aXc", "ababc", "AB", "xaby", "123", "a1", "cab12ab"];
+    for p in ["a", "^a", "a$", "a.c", "a*", "ab+", "[a-c]+", "\\d+", "a|b", "(?i)AB", "x"] {
+        for r in ["-", "<>", ""] {
+            for s1 in rstrs {
+                for s2 in rstrs {
+                    out.push(Case { fname: "regex_replace", args: vec![Arg::Q(false, vec![key("l"), Part::All]), Arg::Lit(s(p)), Arg::Lit(s(r))], lets: vec![], doc: m(vec![("l", l(vec![s(s1), s(s2)]))]), form: "regex_replace-elementwise" });
+                }
+            }
+        }
+    }
+    out
+}
+
 fn json_of(vs: &[V]) -> Vec<Value> {
     vs.iter().map(|v| v.to_json_value()).collect()
 }
@@ -239,8 +304,10 @@ fn json_of(vs: &[V]) -> Vec<Value> {
 pub fn run(tier: &str) -> i32 {
     let thorough = tier == "thorough";
     let mut rep = Report::new("C18", tier);
-    let cs = cases(true);
-    let _ = thorough;
+    let mut cs = cases(true);
+    if thorough {
+        cs.extend(cases_deep());
+    }
     let res = crate::par::run(cs.len(), rep.seed as u64, crate::par::deadline_secs(if thorough { 3000 } else { 45 }), Acc::new, |k, acc| {
         let c = &cs[k];
         let call = format!("{}({})", c.fname, c.args.iter().map(print_arg).collect::<Vec<_>>().join(", "));
@@ -336,7 +403,20 @@ pub fn run(tier: &str) -> i32 {
 
     // ---- count(q) over every query of the plain alphabet x documents
     let qs = queries_plain(2);
-    let docs = docs_quick();
+    let mut docs = docs_quick();
+    if thorough {
+        // the json_parse round trip also over the documents of C11 that can be written as a Guard literal
+        // (strings with raw DEL / C1 / line-separator characters are C11's open finding about JSON read through the YAML loader)
+        fn plain_strings(v: &V) -> bool {
+            match v {
+                V::Str(x) => !x.chars().any(|c| matches!(c as u32, 0..=0x1f | 0x7f..=0x9f | 0x2028 | 0x2029 | 0xfeff)),
+                V::List(l) => l.iter().all(plain_strings),
+                V::Map(m) => m.iter().all(|(k, x)| plain_strings(&V::Str(k.clone())) && plain_strings(x)),
+                _ => true,
+            }
+        }
+        docs.extend(crate::c11::documents(true).into_iter().filter(|d| d.guard_expressible() && plain_strings(d)).step_by(3));
+    }
     let mut cnt = 0u64;
     for q in &qs {
         for d in &docs {
